@@ -320,8 +320,14 @@ func (c *Case) Bubble(f func(), leaked func(dump string)) {
 		if n := runtime.NumGoroutine(); n > base {
 			buf := make([]byte, 1<<20)
 			buf = buf[:runtime.Stack(buf, true)]
+			// runtime.NumGoroutine also counts runtime-internal goroutines (finalizers,
+			// cleanups) while they run: only goroutines that belong to the bubble count.
+			filtered := BubbleGoroutines(string(buf))
+			if filtered == "" {
+				return
+			}
 			if leaked != nil {
-				leaked(BubbleGoroutines(string(buf)))
+				leaked(filtered)
 			} else {
 				c.Inconclusive("goroutines left in bubble: %d", n-base)
 			}
